@@ -166,7 +166,7 @@ impl Prop for C18 {
         let nw = ws.len() as u64;
         let mut sc = Scenario::new("C18", "heap");
         let ma = |r: &mut Rng| {
-            let k = *r.pick(crate::spec::MAS);
+            let k = crate::gen::pick_ma_kind(r);
             let n = r.range(1, 12);
             let mut m = Spec::un(k, n, Spec::echo());
             gen_params(r, &mut m, false);
